@@ -40,6 +40,21 @@ def conformance(raw):
                 if st is None or ld is None or ld < st: return 'reader %s: outermost unlock does not store its ctr before loading gp.futex: %s' % (t, ' '.join(ks))
     return None
 
+def conformance_locks(raw):
+    """lock discipline of the grace-period wait (the models let registrations proceed while the updater sleeps: Gp/GpDyn*.v): a thread never goes to sleep in FUTEX_WAIT
+    on the grace-period futex while it holds the registry lock"""
+    held = {}
+    for l in raw.splitlines():
+        p = l.split()
+        if len(p) < 3 or not p[0].isdigit(): continue
+        t, k, loc = p[0], p[1], p[2]
+        h = held.setdefault(t, set())
+        if k == 'lock': h.add(loc)
+        elif k == 'unlock': h.discard(loc)
+        elif k == 'futex_wait' and loc.startswith('gp.futex') and p[-1] == 'sleep' and 'reg_lock+0' in h:
+            return 'thread %s goes to sleep on the grace-period futex while holding the registry lock: rcu_register_thread() / rcu_unregister_thread() of any thread block until the awaited reader leaves (and for ever if that reader waits for them)' % t
+    return None
+
 def conformance_compat(raw):
     """program order of the futex fallback against Futex/CompatFutex.v (platform without the futex system call): pthread_cond_wait is called with the compat mutex
     held, and pthread_cond_broadcast is issued while holding that same mutex (that is what makes a sleeper's "check the word, then queue" atomic w.r.t. the wake-up)"""
@@ -146,7 +161,12 @@ def gen(ctx, progs, n):
 def run_flavor(ctx, name, src, defs, progs, n, conf=True):
     impl = build_scenario(ctx, name, src, extra_src=G.SRCS, defs=defs)
     if not impl: return
-    cases = gen(ctx, progs, n) if 'nofutex' not in name else []
+    cases = gen(ctx, progs, n) if ('nofutex' not in name and 'dyn' not in name) else []
+    if 'dyn' in name:
+        # the awaited reader leaves only after another thread has registered, and that thread registers while the updater is asleep
+        for prog in ('(W2)/S/-R', '(W2)/S/-R/S'):
+            for k in range(20, 120, 2 if ctx.quick() else 1):
+                cases.append((prog, '>0' + '1b' * k + '2c' * 60 + '0a' * 30 + '1b' * 200 + '2c' * 100 + '0a' * 100))
     if 'nofutex' in name:
         # compat fallback (mutex + condition variable): the sleeper frozen at every step of its way to sleep - in particular between its check of the word under
         # the lock and its pthread_cond_wait - while the reader it waits for leaves and sends the wake-up; also with a second sleeper
@@ -160,7 +180,7 @@ def run_flavor(ctx, name, src, defs, progs, n, conf=True):
     rs = run_many([[impl, p, s + tail] for p, s in cases], timeout=30)
     nor = 0; slept = 0
     for (p, s), (rc, raw) in zip(cases, rs):
-        o = stuck_oracle(p, s, None, raw) or (G.qsbr_oracle if 'qsbr' in name else G.oracle)(p, s, None, raw) or (conformance(raw) if conf else None) or (conformance_qsbr(raw) if 'qsbr' in name else None) or (conformance_compat(raw) if 'nofutex' in name else None)
+        o = stuck_oracle(p, s, None, raw) or (G.qsbr_oracle if 'qsbr' in name else G.oracle)(p, s, None, raw) or (conformance(raw) if conf else None) or (conformance_qsbr(raw) if 'qsbr' in name else None) or (conformance_compat(raw) if 'nofutex' in name else None) or conformance_locks(raw)
         if 'BUG ' in raw or 'ABORT' in raw or 'TIMEOUT' in raw: o = 'abnormal run: ' + raw[-300:]
         if o:
             nor += 1
@@ -182,6 +202,7 @@ def run(ctx):
     run_flavor(ctx, 'scen_gp_memb_a2', 'scen_gp.c', G.DEFS, PROGS, n // 2)
     run_flavor(ctx, 'scen_gp_mb_a1', 'scen_gp.c', A1 + ['-DFLAVOR_MB'], PROGS, n // 2)
     run_flavor(ctx, 'scen_qsbr_a1', 'scen_qsbr.c', A1, QPROGS, n, conf=False)
+    run_flavor(ctx, 'scen_gp_memb_dyn', 'scen_gp.c', A1 + ['-DDYNREG'], PROGS[:1], n // 6, conf=False)
     run_flavor(ctx, 'scen_gp_memb_enosys', 'scen_gp.c', A1 + ['-DFUTEX_ENOSYS'], PROGS[:2], n // 3, conf=False)
     # the platform without a futex system call: futex_noasync() is compat_futex_noasync() (mutex + condition variable) - qsbr grace-period futex, wait-node futex of merged callers
     run_flavor(ctx, 'scen_qsbr_nofutex', 'scen_qsbr.c', A1 + ['-DVERIF_NO_FUTEX'], QPROGS[:2], n // 6, conf=False)
